@@ -218,6 +218,9 @@ def c06_2(run):
             if which == 'Process':
                 run.prove(f'ProcessProposal rejects over-limit sequenced data, a group increase, and fatally failing transactions {lab}', p.pc,
                           z3.Implies(z3.Or(z3.Not(fits_seq), z3.Not(group_ok), z3.UGE(oc, 2)), z3.BoolVal(r.discr == 'Err')))
+                boc = r.fields.get(('Ok', 0)) if r.discr == 'Ok' else None
+                run.prove(f'ProcessProposal never skips a transaction: Ok means the transaction was included and the loop continues {lab}', p.pc,
+                          z3.BoolVal(True) if r.discr == 'Err' else (z3.And(z3.BoolVal(included), ex.discr_value(p, boc) == z3.BitVecVal(ex.adts.variant_index(boc.ty, 'Continue'), 64)) if boc is not None else z3.BoolVal(False)))
             if executed:
                 run.prove(f'a transaction is executed only after the size and group checks passed {lab}', p.pc, z3.And(fits_seq, group_ok, fits_comet if which == 'Prepare' else z3.BoolVal(True)))
     # agreement: every input on which Prepare includes the tx is accepted (Ok, included) by Process
@@ -267,4 +270,151 @@ def c06_4(run):
             c = ex.deref_val(p, p.result.fields[('Ok', 0)])
             run.prove(f'new(max, {flag}) => limit = max, nothing sequenced yet, and the cometbft size starts at the commitments\' wire size [path {i}]', p.pc,
                       z3.And(B.fld(ex, p, c, 'max_size_cometbft', 'usize') == mx, B.fld(ex, p, c, 'current_size_sequencer', 'usize') == 0, B.fld(ex, p, c, 'current_size_cometbft', 'usize') == z3.BitVecVal(wire[flag], 64)))
+    run.require_reached(*run.cur.reach)
+
+
+# ----------------------------------------------------------------------------------------------------------------- C06-5
+def _step_hook(which):
+    """proposal_checks_and_tx_execution as an oracle: per call an arbitrary outcome (Continue+included, Continue+skipped [Prepare only], Break, Err);
+    the per-step behaviour itself is C06-2 (which also shows Process never answers skipped/Break)"""
+    def h_step(ctx):
+        st = ctx.st
+        k = sum(1 for e in st.log if e[0] == 'step')
+        tx = ctx.args[1]
+        st.log.append(('step', tx.attrs.get('idx') if isinstance(tx, Obj) else None))
+        oc = z3.BitVec(f'step_outcome_{k}', 8); st.pc.append(z3.ULE(oc, 3))
+
+        def alts(ex, s2, fut):
+            def include(s3):
+                pr = ex.read(s3, s3.tr(fut.attrs['prop']).loc)
+                vec = B.vfld(ex, s3, pr, which, 'executed_txs')
+                vec.attrs['items'].append(B.struct(ex, 'ExecutedTransaction', tx=s3.tr(fut.attrs['tx']), exec_result=Obj('ExecTxResult')))
+                return ok(_boc(ex, 'Continue'))
+            return [(oc == 0, include), (oc == 1, (lambda s3: ok(_boc(ex, 'Continue')))), (oc == 2, (lambda s3: ok(_boc(ex, 'Break')))),
+                    (oc == 3, (lambda s3: err(Obj('eyre::Report', kind='error'))))]
+        return [(None, M.thunk_future(alts, prop=ctx.args[2], tx=tx))]
+    return h_step
+
+
+def _boc(ex, name):
+    a = ex.adts.lookup('app::BreakOrContinue')
+    if not a:
+        raise Inconclusive('enum BreakOrContinue not found (refactored?)')
+    o = Obj(a['path']); o.discr = name
+    return o
+
+
+@obligation('C06', 'C06-5 process_proposal_tx_execution: every transaction of the proposal is checked+executed exactly once, in block order; an error from any step rejects the proposal; Ok returns exactly the included transactions in order')
+def c06_5(run):
+    N = 3 if run.tier == 'quick' else 4
+    run.bound(txs=f'proposals of 0..{N} transactions', step='proposal_checks_and_tx_execution is an oracle with 4 outcomes per call (its own behaviour is C06-2)')
+    ex, W = A.engine(extra_hooks=[(re.compile(r'(^|::)proposal_checks_and_tx_execution$'), _step_hook('Process')),
+                                  (re.compile(r'Mempool as (std::clone::)?Clone>::clone$'), lambda ctx: [(None, Obj('Mempool'))])] + c06_hooks())
+    f = ex.find(r'^app::<impl at [^>]*>::process_proposal_tx_execution$')
+    for n in range(N + 1):
+        txs = []
+        for i in range(n):
+            t = Obj('Arc<CheckedTransaction>', kind='arc'); t.attrs['idx'] = i; t.fields[('in', 0)] = Obj('CheckedTransaction'); txs.append(t)
+        app = B.struct(ex, 'App', mempool=Obj('Mempool'))
+        bsc, _ = sym_bsc(ex)
+        st = ex.start(f, [B.cell(app), B.cell(M.new_vec('Vec<Arc<CheckedTransaction>>', txs)), bsc])
+        ocs = [z3.BitVec(f'step_outcome_{k}', 8) for k in range(n)]
+        nret = 0
+        for i, p in enumerate(run.explore(ex, st, poll=True)):
+            lab = f'[n={n}, path {i}]'
+            if p.kind != 'return':
+                run.prove(f'no panic {lab}', p.pc, z3.BoolVal(False), detail=p.info); continue
+            r = p.result.fields[('Ready', 0)]
+            steps = [e[1] for e in p.log if e[0] == 'step']
+            run.sample({'n': n, 'path': i, 'result': r.discr, 'steps': steps})
+            run.prove(f'the steps are a prefix of the block in block order, each transaction at most once {lab}', p.pc, z3.BoolVal(steps == list(range(len(steps)))))
+            # the first step that does not answer "continue" (Break or Err) ends the loop; nothing after it is executed
+            for k in range(len(steps) - 1):
+                run.prove(f'a step is taken only after every earlier step continued [{k}] {lab}', p.pc, z3.ULE(ocs[k], 1))
+            if r.discr == 'Ok':
+                nret += 1
+                run.prove(f'Ok => no step failed {lab}', p.pc, z3.And(*[ocs[k] != 3 for k in range(len(steps))]) if steps else z3.BoolVal(True))
+                run.prove(f'Ok => all {n} transactions were stepped through unless a step asked to break {lab}', p.pc,
+                          z3.Or(z3.BoolVal(len(steps) == n), *([ocs[len(steps) - 1] == 2] if steps else [])))
+                out = r.fields[('Ok', 0)]
+                items = out.attrs['items']
+                got = []
+                for it in items:
+                    t = B.fld(ex, p, it, 'tx')
+                    got.append(t.attrs.get('idx') if isinstance(t, Obj) else None)
+                inc = [k for k in range(len(steps))]
+                # expected: exactly those k whose outcome is 0 — decided per path by the solver
+                import itertools
+                run.prove(f'Ok => the executed list is exactly the included transactions, in order {lab}', p.pc,
+                          z3.And(z3.BoolVal(got == sorted(got) and len(set(got)) == len(got)), *[(ocs[k] == 0) == z3.BoolVal(k in got) for k in inc]))
+            else:
+                run.prove(f'Err => some step failed {lab}', p.pc, z3.Or(*[ocs[k] == 3 for k in range(len(steps))]) if steps else z3.BoolVal(False))
+        if not nret:
+            raise Inconclusive(f'vacuity: no Ok path for n={n}')
+    run.require_reached(*run.cur.reach)
+
+
+# ----------------------------------------------------------------------------------------------------------------- C06-6
+@obligation('C06', 'C06-6 prepare_proposal_tx_execution: mempool transactions are stepped through in builder-queue order until a step asks to stop; the proposal contains exactly the included ones, in that order, and the same list (with results) is cached for process/finalize')
+def c06_6(run):
+    N = 3 if run.tier == 'quick' else 4
+    run.bound(txs=f'builder queues of 0..{N} transactions', step='proposal_checks_and_tx_execution is an oracle with 4 outcomes per call (its own behaviour is C06-2)',
+              state='Arc::try_begin_transaction / object_put / apply are logging stubs (ephemeral object store)')
+    holder = {}
+
+    def h_queue(ctx):
+        return [(None, M.thunk_future(lambda ex, s2, fut: [(None, (lambda s3: s3.tr(fut.attrs['q'])))], q=holder['q']))]
+
+    def h_put(ctx):
+        key = ctx.args[1]; val = ctx.args[2]
+        ctx.st.log.append(('object_put', M.const_str(ctx.ex, ctx.st, key) if hasattr(M, 'const_str') else None, val))
+        return [(None, ())]
+    hooks = [(re.compile(r'(^|::)proposal_checks_and_tx_execution$'), _step_hook('Prepare')),
+             (re.compile(r'Mempool as (std::clone::)?Clone>::clone$'), lambda ctx: [(None, Obj('Mempool'))]),
+             (re.compile(r'Mempool::len$'), lambda ctx: [(None, M.thunk_future(lambda ex, s2, fut: [(None, z3.BitVec('mempool_len', 64))]))]),
+             (re.compile(r'Mempool::builder_queue$'), h_queue),
+             (re.compile(r'try_begin_transaction'), lambda ctx: [(None, some(Obj('StateDelta', kind='opaque')))]),
+             (re.compile(r'object_put::<'), h_put),
+             (re.compile(r'StateDelta<.*>::apply$|::apply$'), lambda ctx: [(None, ())])] + c06_hooks()
+    ex, W = A.engine(extra_hooks=hooks)
+    f = ex.find(r'^app::<impl at [^>]*>::prepare_proposal_tx_execution$')
+    for n in range(N + 1):
+        txs = []
+        for i in range(n):
+            t = Obj('Arc<CheckedTransaction>', kind='arc'); t.attrs['idx'] = i; t.fields[('in', 0)] = Obj('CheckedTransaction'); txs.append(t)
+        holder['q'] = M.new_vec('Vec<Arc<CheckedTransaction>>', txs)
+        app = B.struct(ex, 'App', mempool=Obj('Mempool'), metrics=B.cell(Obj('Metrics')), state=Obj('Arc<StateDelta<Snapshot>>', kind='arc'))
+        bsc, _ = sym_bsc(ex)
+        st = ex.start(f, [B.cell(app), bsc])
+        st.scratch = holder['q']           # keep the queue inside the state so that clones carry it
+        ocs = [z3.BitVec(f'step_outcome_{k}', 8) for k in range(n)]
+        nret = 0
+        for i, p in enumerate(run.explore(ex, st, poll=True, allow_havoc=(r'^Arguments::|fmt::',))):
+            lab = f'[n={n}, path {i}]'
+            if p.kind != 'return':
+                run.prove(f'no panic {lab}', p.pc, z3.BoolVal(False), detail=p.info); continue
+            r = p.result.fields[('Ready', 0)]
+            steps = [e[1] for e in p.log if e[0] == 'step']
+            puts = [e for e in p.log if e[0] == 'object_put']
+            run.sample({'n': n, 'path': i, 'result': r.discr, 'steps': steps, 'puts': len(puts)})
+            run.prove(f'the steps are a prefix of the builder queue, in queue order {lab}', p.pc, z3.BoolVal(steps == list(range(len(steps)))))
+            for k in range(len(steps) - 1):
+                run.prove(f'a step is taken only after every earlier step continued [{k}] {lab}', p.pc, z3.ULE(ocs[k], 1))
+            if r.discr == 'Ok':
+                nret += 1
+                run.prove(f'Ok => no step failed; the whole queue was stepped through unless a step asked to stop {lab}', p.pc,
+                          z3.And(*[ocs[k] != 3 for k in range(len(steps))], z3.Or(z3.BoolVal(len(steps) == n), *([ocs[len(steps) - 1] == 2] if steps else []))))
+                got = [(t.attrs.get('idx') if isinstance(t, Obj) else None) for t in r.fields[('Ok', 0)].attrs['items']]
+                run.prove(f'Ok => the proposal is exactly the included transactions, in order {lab}', p.pc,
+                          z3.And(z3.BoolVal(got == sorted(got) and len(set(got)) == len(got)), *[(ocs[k] == 0) == z3.BoolVal(k in got) for k in range(len(steps))]))
+                cached = None
+                if len(puts) == 1 and isinstance(puts[0][2], Obj) and 'items' in puts[0][2].attrs:
+                    cached = []
+                    for it in puts[0][2].attrs['items']:
+                        t = B.fld(ex, p, it, 'tx'); cached.append(t.attrs.get('idx') if isinstance(t, Obj) else None)
+                run.prove(f'Ok => exactly one executed-transactions list is cached and it holds the same transactions as the proposal {lab}', p.pc, z3.BoolVal(cached == got))
+            else:
+                run.prove(f'Err => some step failed {lab}', p.pc, z3.Or(*[ocs[k] == 3 for k in range(len(steps))]) if steps else z3.BoolVal(False))
+        if not nret:
+            raise Inconclusive(f'vacuity: no Ok path for n={n}')
     run.require_reached(*run.cur.reach)
